@@ -7,6 +7,7 @@ list, relative key, Key object, diatonic steps) is compared with the line-of-fif
 mc/ref/pitch.py *and* with the clause-by-clause invariants of the statement evaluated on the
 library's own answers, for all 30 keys; the error clauses are decided on a grid of candidate
 strings / integers."""
+import importlib
 import itertools
 
 from mc import engine
@@ -28,7 +29,7 @@ ASSUMPTIONS = [
     "rejection is demanded of every function that takes a key name (get_key_signature, get_key_signature_accidentals, get_notes, relative_major, relative_minor, Key) for candidate *strings* that are none of the 30 keys; relative_major of a valid major key / relative_minor of a valid minor key are not judged (statement silent)",
     "signature numbers are ints (bool, float and str arguments are out of scope)",
     "diatonic steps: only valid note names as start notes (letter + any string over '#','b'); the result must be the key's note on the letter `step` letters above, whatever the start note's accidentals; unison() and invalid start notes are out of scope",
-    "the memo clause clears mingus.core.keys._key_cache (if that dict exists) to obtain a cold table, as named in the property's anchors",
+    "the memo clause obtains a cold mingus.core.keys by importlib.reload (whatever private tables the module keeps are rebuilt)",
 ]
 
 MAJOR_PATTERN = [2, 2, 1, 2, 2, 2, 1]
@@ -394,10 +395,10 @@ def run_circle(case):
 def run_memo(case):
     S = engine.S
     k1, k2 = case
-    cache = getattr(K, "_key_cache", None)
-    if isinstance(cache, dict):
-        cache.clear()
-        S.count("memo_cold_starts")
+    # cold start without naming any private table: re-execute the module, which rebuilds whatever
+    # memo tables it keeps (K is the same module object afterwards)
+    importlib.reload(K)
+    S.count("memo_cold_starts")
     seq = [k1, k2, k1, k2]
     got = []
     for k in seq:
